@@ -388,7 +388,7 @@ func report(eng *Engine, prop, tier string, fvs []*funcVC, results []*Result, un
 	}
 	bySolver := map[string]int{}
 	var totalMs, maxMs int64
-	discharged, failed := 0, 0
+	discharged, failed, skipped := 0, 0, 0
 	var samples []map[string]interface{}
 	var viol []string
 	knownSeen := map[string]bool{}
@@ -409,6 +409,10 @@ func report(eng *Engine, prop, tier string, fvs []*funcVC, results []*Result, un
 			if verbose {
 				fmt.Printf("ok    %-70s %s %dms\n", r.Ob.Name, r.Solver, r.Ms)
 			}
+			continue
+		}
+		if r.Status == "not-attempted" {
+			skipped++
 			continue
 		}
 		if kf := isKnown(r.Ob); kf != nil {
@@ -436,6 +440,9 @@ func report(eng *Engine, prop, tier string, fvs []*funcVC, results []*Result, un
 	}
 	for _, v := range viol {
 		fmt.Println(v)
+	}
+	if skipped > 0 {
+		fmt.Printf("govc: %d further obligations were given one short attempt only and stay undecided (the verdict was already settled by the failures above)\n", skipped)
 	}
 	nobl := len(results)
 	wall := time.Since(start).Seconds()
